@@ -1,6 +1,7 @@
 import Uniseg.Properties.C04
 import Uniseg.Properties.C08
 import Uniseg.Class.L
+import Uniseg.Proofs.Utf8Last
 /-! # C12 — hard line breaks, end-of-text flags and CR LF are treated consistently -/
 namespace Uniseg.Properties.C12
 open Uniseg Uniseg.Gen Uniseg.Auto Uniseg.Chain Uniseg.Spec Uniseg.ChainStep Uniseg.Ref Uniseg.Class
@@ -156,6 +157,114 @@ theorem hasTrailingLineBreak_iff (b : List Nat) :
     hasTrailingLineBreak b = hardSet (Utf8.decodeLastRune b).1 := by
   unfold hasTrailingLineBreak
   exact hard_iff _ (Utf8.decodeLast_lt b)
+
+/-- … and what `DecodeLastRune` returns is the last rune of the forward decoding (`Utf8Last`), so:
+`HasTrailingLineBreak` is true iff the text is non-empty and its last code point — as every loop of the
+package decodes it — is one of the seven -/
+theorem hasTrailingLineBreak_last (b : List Nat) :
+    hasTrailingLineBreak b = match (Utf8.runesOf b).getLast? with
+      | none => false
+      | some r => hardSet r.1 := by
+  by_cases hb : b = []
+  · subst hb; rw [Bytes.runesOf_nil, hasTrailingLineBreak_iff]; rfl
+  · rw [Utf8Last.decodeLast_eq_last b hb, hasTrailingLineBreak_iff]
+
+/-! ## `mustBreak` of a non-final segment = `HasTrailingLineBreak(segment)` -/
+
+/-- the verdict at interior position `j+1` of a letter string -/
+theorem interior_getElem? {α β : Type} (f : List α → List α → β) : ∀ (w left : List α) (j : Nat), j + 1 < left.length + w.length →
+    left ≠ [] → j < w.length →
+    (interior f left w)[j]? = some (f ((w.take j).reverse ++ left) (w.drop j)) := by
+  intro w
+  induction w with
+  | nil => intro left j _ _ hj; simp at hj
+  | cons c rest ih =>
+    intro left j hlen hl hj
+    cases left with
+    | nil => exact absurd rfl hl
+    | cons l ls =>
+      simp only [interior, List.singleton_append]
+      cases j with
+      | zero => simp
+      | succ j =>
+        simp only [List.getElem?_cons_succ, List.take_succ_cons, List.reverse_cons, List.drop_succ_cons, List.append_assoc,
+          List.singleton_append]
+        exact ih (c :: l :: ls) j (by simp only [List.length_cons] at hlen ⊢; omega) (by simp) (by simpa using hj)
+
+/-- the class of a code point is BK, CR, LF or NL iff the line table says so (LB1 resolution leaves
+these four alone); the general category matters to `lbResolve` only as far as `bucket` keeps it -/
+theorem hard_cls : ∀ p, p < 256 → [gcMn, gcMc, gcCn, 0].all (fun gc =>
+    (LB.ofProp (lbResolve p gc) == LB.C.BK || LB.ofProp (lbResolve p gc) == LB.C.CR ||
+     LB.ofProp (lbResolve p gc) == LB.C.LF || LB.ofProp (lbResolve p gc) == LB.C.NL) == isHardBreak p) = true :=
+  Lift.forall_lt_of_all 256 _ (by decide +kernel)
+
+theorem bucket_mem (gc : Nat) : bucket gc ∈ [gcMn, gcMc, gcCn, 0] := by
+  unfold bucket
+  split
+  · rename_i h
+    simp only [Bool.or_eq_true, beq_iff_eq] at h
+    rcases h with (h | h) | h <;> simp [h]
+  · simp
+
+theorem lbLetter_hard (r : Nat) (hr : r < 0x110000) :
+    ((lbLetter r).cls = .BK ∨ (lbLetter r).cls = .CR ∨ (lbLetter r).cls = .LF ∨ (lbLetter r).cls = .NL) ↔ hardSet r = true := by
+  rw [← hard_iff r hr]
+  have h1 : (propertyLineBreak r).1 < 256 := by
+    unfold propertyLineBreak
+    repeat' split
+    all_goals first | decide | exact Lift.eProp_lt _
+  have h := List.all_eq_true.mp (hard_cls _ h1) _ (bucket_mem (propertyLineBreak r).2)
+  simp only [beq_iff_eq] at h
+  rw [lbResolve_bucket] at h
+  have hcls : (lbLetter r).cls = LB.ofProp (lbResolve (propertyLineBreak r).1 (propertyLineBreak r).2) := rfl
+  rw [hcls, ← h]
+  simp only [Bool.or_eq_true, beq_iff_eq, or_assoc]
+
+/-- **at every interior position where the line run allows or requires a break, the break is
+required iff the code point before it is one of the seven** — i.e. iff `HasTrailingLineBreak` holds of
+the segment ending there (`hasTrailingLineBreak_last`; the segment's bytes decode to its runes,
+`Bytes.cut_bytes`). With `C04U.line_segments` (segments end exactly at these positions and report
+this verdict) this is "every non-final line segment has mustBreak = HasTrailingLineBreak(segment)". -/
+theorem nonfinal_must_eq_trailing (vals : List Nat) (hcp : ∀ r ∈ vals, r < 0x110000) (j : Nat) (hj : j + 1 < vals.length)
+    (v : LB.V) (hv : (specL vals)[j]? = some v) (hb : v ≠ .no) :
+    v = .must ↔ hardSet (vals.getD j 0) = true := by
+  unfold specL at hv
+  -- interior position j+1: left = first j+1 letters reversed, right = the rest
+  cases hvals : vals with
+  | nil => rw [hvals] at hj; simp at hj
+  | cons r0 rest =>
+    rw [hvals] at hv hj hcp
+    simp only [List.map_cons, interior, List.nil_append] at hv
+    have hlen : j < (rest.map lbLetter).length := by simp only [List.length_map, List.length_cons] at hj ⊢; omega
+    rw [interior_getElem? LB.lbVerdict (rest.map lbLetter) [lbLetter r0] j (by simp only [List.length_cons, List.length_nil]; omega) (by simp) hlen] at hv
+    cases hv
+    -- the right context is non-empty, the left context's head is the letter of `vals[j]`
+    have hdrop : ∃ y ys, (rest.map lbLetter).drop j = y :: ys := by
+      cases h : (rest.map lbLetter).drop j with
+      | nil =>
+        have := congrArg List.length h
+        simp only [List.length_drop, List.length_nil] at this; omega
+      | cons y ys => exact ⟨y, ys, rfl⟩
+    obtain ⟨y, ys, hy⟩ := hdrop
+    have hleft : ∃ ls, ((rest.map lbLetter).take j).reverse ++ [lbLetter r0] = lbLetter ((r0 :: rest).getD j 0) :: ls := by
+      cases j with
+      | zero => exact ⟨[], by simp⟩
+      | succ j =>
+        have hj' : j < rest.length := by simp only [List.length_cons] at hj; omega
+        refine ⟨((rest.map lbLetter).take j).reverse ++ [lbLetter r0], ?_⟩
+        rw [List.take_add_one]
+        simp only [List.getElem?_map, List.getElem?_eq_getElem hj', Option.map_some, Option.toList_some, List.reverse_append,
+          List.reverse_cons, List.reverse_nil, List.nil_append, List.singleton_append, List.cons_append,
+          List.getD_eq_getElem?_getD, List.getElem?_cons_succ, Option.getD_some]
+    obtain ⟨ls, hls⟩ := hleft
+    rw [hls, hy] at hb ⊢
+    rw [nonfinal_must_iff _ _ _ _ hb]
+    have hr : (r0 :: rest).getD j 0 < 0x110000 := by
+      have : (r0 :: rest).getD j 0 ∈ r0 :: rest := by
+        rw [List.getD_eq_getElem?_getD, List.getElem?_eq_getElem (by simp only [List.length_cons] at hj ⊢; omega)]
+        exact List.getElem_mem _
+      exact hcp _ this
+    exact lbLetter_hard _ hr
 
 /-- the empty input: no last code point, result false -/
 example : hasTrailingLineBreak [] = false := by decide +kernel
